@@ -210,6 +210,15 @@ def run(prop, tier, seed):
             os.remove(r['ndjson'])
         if prop in ('C03', 'C05', 'C10', 'C16', 'C18'):
             nd, nscen = S.run_scenarios('C16' if prop == 'C18' else prop, tier, seed, workdir)
+            if prop == 'C18':           # the counters are also judged on every hostile-input run of the C10 driver
+                nd2, nscen2 = S.run_scenarios('C10', tier, seed, workdir)
+                with open(nd, 'a') as fa, open(nd2) as fb:
+                    for line in fb:
+                        d = json.loads(line)
+                        d['tid'] += 10000000
+                        fa.write(json.dumps(d, separators=(',', ':')) + '\n')
+                os.remove(nd2)
+                nscen += nscen2
             rej, vst = S.validate(nd, PROPSETS[prop])
             job = {'wcfg': {'scenario': prop}, 'cfgline': {}}
             nrej = S.judge(prop, rej, nd, job, v)
